@@ -39,6 +39,57 @@ type faultSpec struct {
 	Ks     []int          `json:"ks"`  // file size limits to inject; nil: every k in 0..len(new document)
 	Dir    string         `json:"dir"`
 	Out    string         `json:"out"`
+	// Loc is the store-location class: how the configured uPSKStorePath relates to the file.
+	// "plain" (absolute path of a regular file), "subdir" (file in a nested directory),
+	// "symlink-abs"/"symlink-rel" (the configured path is a symbolic link to the real file, link
+	// target absolute / relative), "relative"/"relative-subdir" (path relative to the working directory).
+	Loc string `json:"loc,omitempty"`
+}
+
+// Locs lists the store-location classes.
+var Locs = []string{"plain", "symlink-abs", "relative", "subdir", "symlink-rel", "relative-subdir"}
+
+// placeStore creates the store document under dir according to the location class and returns
+// the path to configure (possibly relative: the working directory is then changed to dir) and an
+// absolute path that reaches the same file through the same link.
+func placeStore(dir, loc string, doc []byte) (configured, absolute string, err error) {
+	abs := filepath.Join(dir, "upsks.json")
+	switch loc {
+	case "", "plain":
+		return abs, abs, os.WriteFile(abs, doc, 0o644)
+	case "subdir":
+		abs = filepath.Join(dir, "etc", "shadowsocks-go", "upsks.json")
+		if err = os.MkdirAll(filepath.Dir(abs), 0o755); err != nil {
+			return
+		}
+		return abs, abs, os.WriteFile(abs, doc, 0o644)
+	case "symlink-abs", "symlink-rel":
+		real := filepath.Join(dir, "real", "store.json")
+		if err = os.MkdirAll(filepath.Dir(real), 0o755); err != nil {
+			return
+		}
+		if err = os.WriteFile(real, doc, 0o644); err != nil {
+			return
+		}
+		target := real
+		if loc == "symlink-rel" {
+			target = filepath.Join("real", "store.json")
+		}
+		return abs, abs, os.Symlink(target, abs)
+	case "relative", "relative-subdir":
+		rel := "upsks.json"
+		if loc == "relative-subdir" {
+			rel = filepath.Join("conf.d", "upsks.json")
+			if err = os.MkdirAll(filepath.Join(dir, "conf.d"), 0o755); err != nil {
+				return
+			}
+		}
+		if err = os.Chdir(dir); err != nil {
+			return
+		}
+		return rel, filepath.Join(dir, rel), os.WriteFile(filepath.Join(dir, rel), doc, 0o644)
+	}
+	return "", "", fmt.Errorf("unknown location class %q", loc)
 }
 
 type faultResult struct {
@@ -153,8 +204,8 @@ func childFaults(t *testing.T, spec faultSpec) {
 		if err := os.MkdirAll(dir, 0o755); err != nil {
 			t.Fatal(err)
 		}
-		path := filepath.Join(dir, "upsks.json")
-		if err := os.WriteFile(path, prevDoc, 0o644); err != nil {
+		path, absPath, err := placeStore(dir, spec.Loc, prevDoc)
+		if err != nil {
 			t.Fatal(err)
 		}
 		var saveErrs atomic.Int64
@@ -188,12 +239,14 @@ func childFaults(t *testing.T, spec faultSpec) {
 			}
 		})
 		_ = setFileSizeLimit(^uint64(0))
-		res.File, _ = os.ReadFile(path)
+		// what a restarting server would read through the configured path
+		res.File, _ = os.ReadFile(absPath)
 		res.SaveErr = saveErrs.Load() > 0
 		res.NoSave = !res.SaveErr && string(res.File) == string(prevDoc)
-		if ents, err := os.ReadDir(dir); err == nil {
+		if ents, err := os.ReadDir(filepath.Dir(absPath)); err == nil {
 			res.Leftovers = len(ents) - 1
 		}
+		_ = os.Chdir(spec.Dir)
 		os.RemoveAll(dir)
 		out.Results = append(out.Results, res)
 	}
@@ -209,7 +262,6 @@ func childFaults(t *testing.T, spec faultSpec) {
 // save's due time has passed "S". The parent kills the process at a random instant.
 func childKillLoop(t *testing.T, spec faultSpec) {
 	kl := spec.KeyLen
-	path := filepath.Join(spec.Dir, "upsks.json")
 	j, err := os.OpenFile(filepath.Join(spec.Dir, "journal"), os.O_CREATE|os.O_WRONLY|os.O_APPEND, 0o644)
 	if err != nil {
 		t.Fatal(err)
@@ -218,7 +270,16 @@ func childKillLoop(t *testing.T, spec faultSpec) {
 	for n, k := range spec.Prev {
 		state[n] = k
 	}
-	if err := os.WriteFile(path, credx.EncodeStore(users(kl, state), true), 0o644); err != nil {
+	storeDir := filepath.Join(spec.Dir, "store")
+	if err := os.MkdirAll(storeDir, 0o755); err != nil {
+		t.Fatal(err)
+	}
+	path, absPath, err := placeStore(storeDir, spec.Loc, credx.EncodeStore(users(kl, state), true))
+	if err != nil {
+		t.Fatal(err)
+	}
+	// tell the parent how to reach the store the way the configured path does
+	if err := os.WriteFile(filepath.Join(spec.Dir, "store-path"), []byte(absPath), 0o644); err != nil {
 		t.Fatal(err)
 	}
 	line := func(kind string, i int, st map[string]int) {
